@@ -35,6 +35,7 @@ func TestVerif_C32(t *testing.T) {
 	n := run.N(1500, 150000)
 	run.Cases("set", n, func(i int, rng *verifkit.Rand) { c32set(run, rng, i < 2) })
 	run.Cases("map", n, func(i int, rng *verifkit.Rand) { c32map(run, rng, i < 2) })
+	run.Cases("bulk", run.N(150, 6000), func(i int, rng *verifkit.Rand) { c32bulk(run, rng) })
 }
 
 // c32HookClock lets the driver interleave another client's operation at the
@@ -420,4 +421,78 @@ func c32map(run *verifkit.Run, rng *verifkit.Rand, sample bool) {
 	if sample {
 		run.Sample(map[string]any{"kind": "map", "ttl_ns": int64(ttl), "history": hist})
 	}
+}
+
+// c32bulk: many entries expiring together (an implementation that sweeps in
+// bounded batches must still not LIST expired entries), with a subset refreshed
+// just before the expiry instant.
+func c32bulk(run *verifkit.Run, rng *verifkit.Rand) {
+	clock := clockwork.NewFakeClock()
+	ttl := time.Duration(rng.Range(1, 50)) * time.Millisecond
+	n := rng.Range(200, 1200)
+	m := NewMapWithTTL[int, int](ttl, nil)
+	m.Clock = clock
+	s := NewSetWithTTL[int](ttl)
+	s.Clock = clock
+	for i := 0; i < n; i++ {
+		m.Set(i, i)
+		s.Add(i)
+	}
+	refreshed := map[int]bool{}
+	if rng.Bool() {
+		clock.Advance(ttl - 1)
+		k := rng.Range(1, 20)
+		for j := 0; j < k; j++ {
+			i := rng.Intn(n)
+			refreshed[i] = true
+			m.Set(i, i)
+			s.Add(i)
+		}
+		clock.Advance(2) // the originals are 1ns past expiry, the refreshed ones live
+	} else {
+		clock.Advance(ttl + 1)
+	}
+	want := len(refreshed)
+	wit := map[string]any{"entries": n, "ttl_ns": int64(ttl), "refreshed_before_expiry": want}
+	order := rng.Perm(6)
+	for _, q := range order {
+		switch q {
+		case 0:
+			if got := len(m.Keys()); got != want {
+				run.Violation("C32/map/Keys/present-after-expiry/bulk", fmt.Sprintf("Keys() lists %d entries, %d are unexpired (of %d set)", got, want, n), wit)
+			}
+		case 1:
+			if got := len(m.Values()); got != want {
+				run.Violation("C32/map/Values/present-after-expiry/bulk", fmt.Sprintf("Values() lists %d entries, %d are unexpired", got, want), wit)
+			}
+		case 2:
+			if got := len(m.SortedKeys()); got != want {
+				run.Violation("C32/map/SortedKeys/present-after-expiry/bulk", fmt.Sprintf("SortedKeys() lists %d entries, %d are unexpired", got, want), wit)
+			}
+		case 3:
+			if got := m.Length(); got != want {
+				run.Violation("C32/map/Length/present-after-expiry/bulk", fmt.Sprintf("Length()=%d, %d are unexpired", got, want), wit)
+			}
+		case 4:
+			if got := len(s.Members()); got != want {
+				run.Violation("C32/set/Members/present-after-expiry/bulk", fmt.Sprintf("Members() lists %d items, %d are unexpired", got, want), wit)
+			}
+		case 5:
+			if got := s.Length(); got != want {
+				run.Violation("C32/set/Length/present-after-expiry/bulk", fmt.Sprintf("Length()=%d, %d are unexpired", got, want), wit)
+			}
+		}
+	}
+	for j := 0; j < 40; j++ {
+		i := rng.Intn(n)
+		_, ok := m.Get(i)
+		if ok != refreshed[i] {
+			run.Violation("C32/map/Get/wrong-after-bulk-expiry", fmt.Sprintf("Get(%d) present=%v, want %v", i, ok, refreshed[i]), wit)
+		}
+		if s.Contains(i) != refreshed[i] {
+			run.Violation("C32/set/Contains/wrong-after-bulk-expiry", fmt.Sprintf("Contains(%d)=%v, want %v", i, s.Contains(i), refreshed[i]), wit)
+		}
+	}
+	run.Count("bulk_entries_expired_together", int64(n-want))
+	run.Nontrivial(fmt.Sprintf("bulk:%d:%d", n/100, want))
 }
